@@ -189,34 +189,207 @@ theorem keysNodup_ainsert {k : String} {v : β} {l : List (String × β)} (h : K
     exact fun e => hk (e ▸ ha)
 
 theorem mem_ainsert {k k' : String} {v v' : β} {l : List (String × β)} (h : (k', v') ∈ ainsert k v l) :
-    (k' = k ∧ v' = v) ∨ (k' ≠ k ∧ (k', v') ∈ l) := by
+    (k' = k ∧ v' = v) ∨ (k', v') ∈ l := by
   induction l with
   | nil => simp at h; exact Or.inl h
   | cons p l ih =>
     obtain ⟨k₁, v₁⟩ := p
     rw [ainsert_cons] at h
     split at h
-    · next hk =>
-      subst hk
-      rcases List.mem_cons.1 h with e | e
+    · rcases List.mem_cons.1 h with e | e
       · cases e; exact Or.inl ⟨rfl, rfl⟩
-      · by_cases hkk : k' = k₁
-        · -- the key appears further down the list: only possible without `KeysNodup`
-          subst hkk
-          -- we cannot conclude `v' = v`; fall back to the right disjunct being false, so use classical split
-          exact Classical.byCases (fun hv : v' = v => Or.inl ⟨rfl, hv⟩)
-            (fun _ => by
-              -- unreachable under `KeysNodup`; see `mem_ainsert_nodup` for the sharp version
-              exact Or.inl ⟨rfl, by
-                first
-                | assumption
-                | exact absurd e (by intro; contradiction)⟩)
-        · exact Or.inr ⟨hkk, List.mem_cons_of_mem _ e⟩
-    · next hk =>
-      rcases List.mem_cons.1 h with e | e
-      · cases e; exact Or.inr ⟨hk, List.mem_cons_self⟩
-      · rcases ih e with h1 | ⟨h1, h2⟩
+      · exact Or.inr (List.mem_cons_of_mem _ e)
+    · rcases List.mem_cons.1 h with e | e
+      · cases e; exact Or.inr List.mem_cons_self
+      · rcases ih e with h1 | h2
         · exact Or.inl h1
-        · exact Or.inr ⟨h1, List.mem_cons_of_mem _ h2⟩
+        · exact Or.inr (List.mem_cons_of_mem _ h2)
+
+/-- under one-value-per-key the inserted key carries exactly the inserted value -/
+theorem eq_of_mem_ainsert_self {k : String} {v v' : β} {l : List (String × β)} (hn : KeysNodup l)
+    (h : (k, v') ∈ ainsert k v l) : v' = v := by
+  have := alookup_of_mem (keysNodup_ainsert hn) h
+  rw [alookup_ainsert_self] at this
+  exact (Option.some.inj this).symm
+
+theorem mem_ainsert_ne {k k' : String} {v v' : β} {l : List (String × β)} (hk : k' ≠ k) :
+    (k', v') ∈ ainsert k v l ↔ (k', v') ∈ l := by
+  induction l with
+  | nil => simp [hk]
+  | cons p l ih =>
+    obtain ⟨k₁, v₁⟩ := p
+    rw [ainsert_cons]
+    split
+    · next e => subst e; simp [hk]
+    · simp [ih]
+
+theorem ainsert_of_alookup {k : String} {v : β} {l : List (String × β)} (h : alookup k l = some v) :
+    ainsert k v l = l := by
+  induction l with
+  | nil => simp at h
+  | cons p l ih =>
+    obtain ⟨k', v'⟩ := p
+    rw [alookup_cons] at h
+    rw [ainsert_cons]
+    split
+    · next hk => subst hk; simp at h; rw [h]
+    · next hk => rw [if_neg hk] at h; rw [ih h]
+
+/-! ### erase -/
+
+@[simp] theorem aerase_nil (k : String) : aerase k ([] : List (String × β)) = [] := rfl
+
+theorem aerase_cons (k k' : String) (v' : β) (l : List (String × β)) :
+    aerase k ((k', v') :: l) = if k' = k then l else (k', v') :: aerase k l := rfl
+
+theorem aerase_of_alookup_none {k : String} {l : List (String × β)} (h : alookup k l = none) :
+    aerase k l = l := by
+  induction l with
+  | nil => rfl
+  | cons p l ih =>
+    obtain ⟨k', v'⟩ := p
+    rw [alookup_cons] at h
+    rw [aerase_cons]
+    split
+    · next hk => simp [hk] at h
+    · next hk => rw [if_neg hk] at h; rw [ih h]
+
+theorem alookup_aerase_ne {k k' : String} (h : k' ≠ k) (l : List (String × β)) :
+    alookup k' (aerase k l) = alookup k' l := by
+  induction l with
+  | nil => rfl
+  | cons p l ih =>
+    obtain ⟨k₁, v₁⟩ := p
+    rw [aerase_cons]
+    split
+    · next hk => subst hk; rw [alookup_cons_ne (Ne.symm h)]
+    · by_cases hk' : k₁ = k'
+      · subst hk'; rw [alookup_cons_self, alookup_cons_self]
+      · rw [alookup_cons_ne hk', alookup_cons_ne hk', ih]
+
+theorem mem_of_mem_aerase {k : String} {p : String × β} {l : List (String × β)} (h : p ∈ aerase k l) : p ∈ l := by
+  induction l with
+  | nil => simp at h
+  | cons q l ih =>
+    obtain ⟨k₁, v₁⟩ := q
+    rw [aerase_cons] at h
+    split at h
+    · exact List.mem_cons_of_mem _ h
+    · rcases List.mem_cons.1 h with e | e
+      · exact e ▸ List.mem_cons_self
+      · exact List.mem_cons_of_mem _ (ih e)
+
+theorem mem_aerase_ne {k k' : String} {v' : β} {l : List (String × β)} (hk : k' ≠ k) :
+    (k', v') ∈ aerase k l ↔ (k', v') ∈ l := by
+  induction l with
+  | nil => simp
+  | cons p l ih =>
+    obtain ⟨k₁, v₁⟩ := p
+    rw [aerase_cons]
+    split
+    · next e => subst e; simp [hk]
+    · simp [ih]
+
+theorem mem_akeys_of_mem_akeys_aerase {k k' : String} {l : List (String × β)} (h : k' ∈ akeys (aerase k l)) :
+    k' ∈ akeys l := by
+  obtain ⟨v, hv⟩ := mem_akeys_iff_exists.1 h
+  exact mem_akeys_of_mem (mem_of_mem_aerase hv)
+
+theorem mem_akeys_aerase_ne {k k' : String} {l : List (String × β)} (hk : k' ≠ k) :
+    k' ∈ akeys (aerase k l) ↔ k' ∈ akeys l := by
+  simp only [mem_akeys_iff_exists, mem_aerase_ne hk]
+
+theorem akeys_aerase (k : String) (l : List (String × β)) : akeys (aerase k l) = (akeys l).erase k := by
+  induction l with
+  | nil => rfl
+  | cons p l ih =>
+    obtain ⟨k₁, v₁⟩ := p
+    rw [aerase_cons]
+    split
+    · next e => subst e; simp
+    · next e => simp [ih, e]
+
+theorem keysNodup_aerase {k : String} {l : List (String × β)} (h : KeysNodup l) : KeysNodup (aerase k l) := by
+  rw [keysNodup_iff] at *
+  rw [akeys_aerase]
+  exact h.erase _
+
+theorem not_mem_akeys_aerase {k : String} {l : List (String × β)} (h : KeysNodup l) : k ∉ akeys (aerase k l) := by
+  rw [akeys_aerase]
+  exact fun hm => (List.Nodup.mem_erase_iff h).1 hm |>.1 rfl
+
+theorem alookup_aerase_self {k : String} {l : List (String × β)} (h : KeysNodup l) :
+    alookup k (aerase k l) = none :=
+  alookup_eq_none_iff.2 (not_mem_akeys_aerase h)
+
+theorem alookup_aerase {k k' : String} {l : List (String × β)} (h : KeysNodup l) :
+    alookup k' (aerase k l) = if k' = k then none else alookup k' l := by
+  split
+  · next e => subst e; exact alookup_aerase_self h
+  · next e => exact alookup_aerase_ne e l
+
+/-- after erasing `k` from a one-value-per-key list, no remaining entry has key `k` -/
+theorem ne_of_mem_aerase {k k' : String} {v : β} {l : List (String × β)} (h : KeysNodup l)
+    (hm : (k', v) ∈ aerase k l) : k' ≠ k :=
+  fun e => not_mem_akeys_aerase h (e ▸ mem_akeys_of_mem hm)
+
+/-! ### mapping the values -/
+
+/-- `List.map` with a key-preserving function, in the form the model writes it -/
+def mapVal (f : String → β → γ) (l : List (String × β)) : List (String × γ) :=
+  l.map fun p => (p.1, f p.1 p.2)
+
+theorem mapVal_cons (f : String → β → γ) (k : String) (v : β) (l : List (String × β)) :
+    mapVal f ((k, v) :: l) = (k, f k v) :: mapVal f l := rfl
+
+@[simp] theorem akeys_mapVal (f : String → β → γ) (l : List (String × β)) : akeys (mapVal f l) = akeys l := by
+  unfold akeys mapVal
+  rw [List.map_map]
+  rfl
+
+theorem keysNodup_mapVal {f : String → β → γ} {l : List (String × β)} (h : KeysNodup l) : KeysNodup (mapVal f l) := by
+  rw [keysNodup_iff] at *
+  rw [akeys_mapVal]; exact h
+
+theorem alookup_mapVal (f : String → β → γ) (k : String) (l : List (String × β)) :
+    alookup k (mapVal f l) = (alookup k l).map (f k) := by
+  induction l with
+  | nil => rfl
+  | cons p l ih =>
+    obtain ⟨k', v'⟩ := p
+    rw [mapVal_cons, alookup_cons, alookup_cons]
+    split
+    · next e => subst e; rfl
+    · exact ih
+
+theorem mem_mapVal {f : String → β → γ} {k : String} {w : γ} {l : List (String × β)} :
+    (k, w) ∈ mapVal f l ↔ ∃ v, (k, v) ∈ l ∧ w = f k v := by
+  unfold mapVal
+  rw [List.mem_map]
+  constructor
+  · rintro ⟨⟨k', v⟩, hm, he⟩
+    cases he
+    exact ⟨v, hm, rfl⟩
+  · rintro ⟨v, hm, rfl⟩
+    exact ⟨(k, v), hm, rfl⟩
+
+theorem aerase_mapVal (f : String → β → γ) (k : String) (l : List (String × β)) :
+    aerase k (mapVal f l) = mapVal f (aerase k l) := by
+  induction l with
+  | nil => rfl
+  | cons p l ih =>
+    obtain ⟨k', v'⟩ := p
+    rw [mapVal_cons, aerase_cons, aerase_cons]
+    split
+    · rfl
+    · rw [mapVal_cons, ih]
+
+theorem mapVal_id_of_forall {f : String → β → β} {l : List (String × β)}
+    (h : ∀ k v, (k, v) ∈ l → f k v = v) : mapVal f l = l := by
+  induction l with
+  | nil => rfl
+  | cons p l ih =>
+    obtain ⟨k', v'⟩ := p
+    rw [mapVal_cons, h k' v' List.mem_cons_self, ih fun k v hm => h k v (List.mem_cons_of_mem _ hm)]
 
 end Burrow.Proofs.AList
